@@ -26,7 +26,7 @@ type caseSpec struct {
 	PayloadLen int    `json:"payload_len,omitempty"`
 	Mode       string `json:"repair_mode,omitempty"` // fresh | in-place | over-existing
 	Ticks      []int  `json:"ticks_after_underlying_writes,omitempty"`
-	History    string `json:"history,omitempty"`     // lives: M write msg, E write next EndHeight, R rotate, S stop+restart
+	History    string `json:"history,omitempty"` // lives: M write msg, E write next EndHeight, R rotate, S stop+restart
 }
 
 // family coarsens a corruption class for signatures: one defect should give a handful of signatures.
